@@ -4,7 +4,8 @@
 //! Bound: every token sequence of length <= 5 over an 11-token alphabet, for one language (var/app/lam/number payload);
 //! every prefix (at character boundaries) of 14 valid, malformed and non-ASCII texts through Pattern::parse / RecExpr::parse
 //! (this also stands in for tokenize / crop_ident / ident_char when an edit moves them outside Verus's subset); print -> parse
-//! round trip of 9 patterns with chained and nested substitutions.
+//! round trip of 9 patterns with chained and nested substitutions; value -> print -> parse round trip of a term and a pattern over
+//! 15 x 15 slot names (non-canonical numerals, signed numerals, f<n> forms, names).
 use crate::*;
 use super::*;
 
@@ -114,6 +115,31 @@ pub fn run(only: &[String]) -> Vec<String> {
                 }
             }
         }
+    }
+    // VALUE -> print -> parse round trip over slot names (C18 speaks about printing a VALUE and reading it back; a text that is
+    // read into a different value and printed canonically would pass the text-based round trip above): free and bound slots
+    // named by numerals in non-canonical form, signed numerals, f<n> forms, ordinary names (seed C18-h)
+    if (want("Pattern::parse") || want("RecExpr::parse") || want("parse_pattern") || want("parse_pattern_nosubst") || tok_label.is_some()) && count[5] < 3 {
+        let label = tok_label.clone().unwrap_or(if want("RecExpr::parse") && !want("Pattern::parse") { "RecExpr::parse".to_string() } else { "Pattern::parse".to_string() });
+        let names = ["x", "7", "07", "007", "+7", "0", "00", "f7", "f07", "f+7", "a_b", "x1", "1x", "4294967295", "1073741824"];
+        for a in names { for b in names {
+            verif_case(format!("value round trip with slot names {:?} (bound) and {:?} (free)", a, b));
+            let var = |n: &str| RecExpr::<BL> { node: BL::Var(Slot::named(n)), children: vec![] };
+            // (lam $a (app (var $a) (var $b)))
+            let t = RecExpr::<BL> { node: BL::Lam(Bind { slot: Slot::named(a), elem: AppliedId::null() }), children: vec![
+                RecExpr { node: BL::App(AppliedId::null(), AppliedId::null()), children: vec![var(a), var(b)] }] };
+            let printed = t.to_string();
+            match std::panic::catch_unwind(|| RecExpr::<BL>::parse(&printed)) {
+                Ok(Ok(t2)) if t2 == t => {}
+                other => { count[5] += 1; fails.push(format!("FAIL {} C18:RecExpr_parse.value-roundtrip the term lam ${} (app (var ${}) (var ${})) prints as {:?}, which parses back to {:?}", label, a, a, b, printed, other.map(|r| r.map(|p| p.to_string())).ok())); if count[5] >= 3 { break; } }
+            }
+            let p = re_to_pattern(&t);
+            let printed = p.to_string();
+            match std::panic::catch_unwind(|| Pattern::<BL>::parse(&printed)) {
+                Ok(Ok(p2)) if p2 == p => {}
+                other => { count[5] += 1; fails.push(format!("FAIL {} C18:Pattern_parse.value-roundtrip the pattern lam ${} (app (var ${}) (var ${})) prints as {:?}, which parses back to {:?}", label, a, a, b, printed, other.map(|r| r.map(|p| p.to_string())).ok())); if count[5] >= 3 { break; } }
+            }
+        } if count[5] >= 3 { break; } }
     }
     let _ = std::panic::take_hook();
     fails
